@@ -1,0 +1,5 @@
+//go:build !verif
+
+package bytecode
+
+func verifStep(*VM, int, Opcode) {}
